@@ -99,14 +99,14 @@ def hmmerMayReuse (ctx : Ctx) (maxEvalue minScore : Dec) (j : J) : Bool :=
       | some ev, some sc => Dec.le maxEvalue ev && Dec.le sc minScore
       | _, _ => false)
 
-/-- TTA: schema 2 (the thresholds are handled by `ttaReference`) -/
-def ttaMayReuse (j : J) : Bool := intField j "schema_version" == some 2
+/-- TTA: schema 3 (the thresholds are handled by `ttaReference`) -/
+def ttaMayReuse (j : J) : Bool := intField j "schema_version" == some 3
 
 /-! #### 3. reference results under changed thresholds -/
 
 /-- TTA codons a run under threshold `opt` stores for a record with GC content `gc` whose genes
     contain the codons `all`: none below the threshold, all of them otherwise -/
-def ttaReference (gc opt : Dec) (all : List (Int × Int)) : List (Int × Int) :=
+def ttaReference (gc opt : Dec) (all : List Loc) : List Loc :=
   if Dec.lt gc opt then [] else all
 
 /-- hits a stored hit list contributes under thresholds `maxEvalue`, `minScore` -/
